@@ -245,7 +245,12 @@ func (s *Session) bind(o *Config) {
 		return
 	}
 
-	// TODO Check all elements
+	// The reply must be the result of our request, not just anything that carries a bind payload
+	if iq.XMLName.Local != "iq" || iq.Type != stanza.IQTypeResult || iq.Id != iqB.Id {
+		s.err = errors.New("unexpected reply to the bind request")
+		return
+	}
+
 	switch payload := iq.Payload.(type) {
 	case *stanza.Bind:
 		s.BindJid = payload.Jid // our local id (with possibly randomly generated resource
@@ -290,6 +295,10 @@ func (s *Session) rfc3921Session() {
 
 		if s.err = s.transport.GetDecoder().Decode(&iq); s.err != nil {
 			s.err = errors.New("expecting iq result after session open: " + s.err.Error())
+			return
+		}
+		if iq.XMLName.Local != "iq" || iq.Type != stanza.IQTypeResult || iq.Id != se.Id {
+			s.err = errors.New("unexpected reply to the session request")
 			return
 		}
 	}
